@@ -47,11 +47,13 @@ Theorem target_outside_root_sound : forall (marker : seg) pth target,
 Proof. exact target_outside_root_sound_lemma. Qed.
 Print Assumptions target_outside_root_sound.
 
-(* ================= unpack.go ================= *)
-(* Positive theorems on the domain D: every cleaned entry name stays lexically below the target
-   and no link target contains a ".." component; the target is a clean absolute path whose
-   prefixes are real directories, and links already below it are harmless.  Any number of
-   entries, any order, any types, any number of passes, any requirer, any size limit. *)
+(* ================= unpack.go (behaviour after fix c7e8b5e1) ================= *)
+(* Positive theorems on the domain D: no link target contains a ".." component.  Entry NAMES are
+   unrestricted ("..", "../target-evil/f", "a/../../x", absolute, empty segments, long ...): the
+   code now skips every cleaned name that climbs before it creates anything, and the base check is
+   path-wise.  The target is a clean absolute path whose prefixes are real directories, and links
+   already below it are harmless.  Any number of entries, any order, any types, any number of
+   passes, any requirer, any size limit. *)
 Theorem unpack_contained_on_D : forall cfg req fs es,
   clean_abs (u_dir cfg) ->
   phys_dir fs [] (csegs (u_dir cfg)) = true -> links_safe (csegs (u_dir cfg)) fs = true ->
@@ -61,6 +63,18 @@ Theorem unpack_contained_on_D : forall cfg req fs es,
 Proof. exact unpack_contained_on_D_lemma. Qed.
 Print Assumptions unpack_contained_on_D.
 
+(* in particular, at full strength for every archive without symlink / hard-link entries: this is
+   the statement the former witnesses "../target-evil/f" (prefix confusion) and "../../out/g"
+   (directories created before the check) refuted *)
+Theorem unpack_contained_without_links : forall cfg req fs es,
+  clean_abs (u_dir cfg) ->
+  phys_dir fs [] (csegs (u_dir cfg)) = true -> links_safe (csegs (u_dir cfg)) fs = true ->
+  forallb (fun e => negb (is_link_entry e)) es = true ->
+  forall p, lookup fs p <> lookup (fst (unpack_all cfg req fs es)) p ->
+            seg_prefix (csegs (u_dir cfg)) p = true.
+Proof. exact unpack_contained_without_links_lemma. Qed.
+Print Assumptions unpack_contained_without_links.
+
 Theorem unpack_links_inside_on_D : forall cfg req fs es,
   clean_abs (u_dir cfg) ->
   phys_dir fs [] (csegs (u_dir cfg)) = true -> links_safe (csegs (u_dir cfg)) fs = true ->
@@ -69,30 +83,10 @@ Theorem unpack_links_inside_on_D : forall cfg req fs es,
 Proof. exact unpack_links_inside_on_D_lemma. Qed.
 Print Assumptions unpack_links_inside_on_D.
 
-(* The unrestricted statements are false for the code as it is. *)
-
-(* "../target-evil/f": regular entries only, clean physical target directory, and a new file
-   appears outside it (strings.HasPrefix("/x/target-evil", "/x/target")) *)
-Theorem unpack_prefix_confusion_refuted :
-  exists cfg fs es,
-    clean (u_dir cfg) = u_dir cfg /\ phys_dir fs [] (csegs (u_dir cfg)) = true /\
-    only_regular es = true /\
-    file_outside (csegs (u_dir cfg)) fs (fst (unpack_all cfg W.all_req fs es)) = true.
-Proof. exact unpack_prefix_confusion_refuted_lemma. Qed.
-Print Assumptions unpack_prefix_confusion_refuted.
-
-(* "../../out/g": the write is refused, but MkdirAll ran before the check and left "out" behind *)
-Theorem unpack_mkdir_before_check_refuted :
-  exists cfg fs es,
-    clean (u_dir cfg) = u_dir cfg /\ phys_dir fs [] (csegs (u_dir cfg)) = true /\
-    only_regular es = true /\
-    no_new_file fs (fst (unpack_all cfg W.all_req fs es)) = true /\
-    all_changes_inside (csegs (u_dir cfg)) fs (fst (unpack_all cfg W.all_req fs es)) = false.
-Proof. exact unpack_mkdir_before_check_refuted_lemma. Qed.
-Print Assumptions unpack_mkdir_before_check_refuted.
+(* What is still false for the code as it is (link targets with ".."): *)
 
 (* "s" -> ".", "a/t" -> "../s/..": nothing outside changes, but a link left in the target
-   resolves to the target's parent *)
+   resolves to the target's parent (TargetOutsideRoot is lexical) *)
 Theorem unpack_link_escape_refuted :
   exists cfg fs es,
     clean (u_dir cfg) = u_dir cfg /\ phys_dir fs [] (csegs (u_dir cfg)) = true /\
@@ -101,19 +95,29 @@ Theorem unpack_link_escape_refuted :
 Proof. exact unpack_link_escape_refuted_lemma. Qed.
 Print Assumptions unpack_link_escape_refuted.
 
-(* the two combined: no entry name climbs lexically, still a file is written outside *)
-Theorem unpack_link_write_through_refuted :
+(* ... and what remains of the write through such a link ("a/t/target-evil/f"): no entry name
+   climbs, NO FILE is written outside any more, but MkdirAll (which runs before the check and
+   follows links) still creates the directory "target-evil" outside the target *)
+Theorem unpack_link_mkdir_through_refuted :
   exists cfg fs es,
     clean (u_dir cfg) = u_dir cfg /\ phys_dir fs [] (csegs (u_dir cfg)) = true /\
     forallb (fun e => no_dotdot (csegs (e_name e))) es = true /\
-    file_outside (csegs (u_dir cfg)) fs (fst (unpack_all cfg W.all_req fs es)) = true.
-Proof. exact unpack_link_write_through_refuted_lemma. Qed.
-Print Assumptions unpack_link_write_through_refuted.
+    file_outside (csegs (u_dir cfg)) fs (fst (unpack_all cfg W.all_req fs es)) = false /\
+    all_changes_inside (csegs (u_dir cfg)) fs (fst (unpack_all cfg W.all_req fs es)) = false.
+Proof. exact unpack_link_mkdir_through_refuted_lemma. Qed.
+Print Assumptions unpack_link_mkdir_through_refuted.
+
+(* regression of the fixed defects: the former witnesses leave the file system untouched *)
+Example unpack_former_witnesses_fixed :
+  unpack_all W.cfg W.all_req W.fs0 W.es_prefix = (W.fs0, false) /\
+  unpack_all W.cfg W.all_req W.fs0 W.es_mkdir = (W.fs0, false).
+Proof. exact unpack_prefix_confusion_fixed_lemma. Qed.
 
 (* ================= non-vacuity ================= *)
 Definition str_a : bytes := [97].
 (* entries inside D that exercise directories, relative and absolute links and write-through:
-   "a/b/f", "l" -> "a", "l/g", "abs" -> "/a/b", "abs/h", "/x/./y", "./a//b/k" *)
+   "a/b/f", "l" -> "a", "l/g", "abs" -> "/a/b", "abs/h", "/x/./y", "./a//b/k", and (skipped by
+   the code, allowed by D) "../target-evil/f", "a/../../x" *)
 Definition ex_entries : list entry :=
   [ W.reg [97;47;98;47;102];
     W.sym [108] [97];
@@ -121,7 +125,9 @@ Definition ex_entries : list entry :=
     W.sym [97;98;115] [47;97;47;98];
     W.reg [97;98;115;47;104];
     W.reg [47;120;47;46;47;121];
-    W.reg [46;47;97;47;47;98;47;107] ].
+    W.reg [46;47;97;47;47;98;47;107];
+    W.reg ([46;46;47] ++ W.b_evil ++ [47;102]);
+    W.reg [97;47;46;46;47;46;46;47;120] ].
 
 Example unpack_D_hypotheses_hold :
   clean_abs (u_dir W.cfg) /\ phys_dir W.fs0 [] (csegs (u_dir W.cfg)) = true /\
